@@ -12,6 +12,9 @@ use core::marker::PhantomData;
 use core::mem::{ManuallyDrop, MaybeUninit};
 use core::ops::Deref;
 use core::ptr::{self, NonNull};
+#[cfg(triomphe_verif)]
+use crate::verif_hook::atomic;
+#[cfg(not(triomphe_verif))]
 use core::sync::atomic;
 use core::sync::atomic::Ordering::{Acquire, Relaxed, Release};
 
